@@ -113,7 +113,8 @@ class World(object):
         if kind == 'down':
             cache['downscale_tiles'] = 1
             src['min_res'], src['max_res'] = 15, 7           # the source has the last level (10 m) only
-        conf = {'services': {'wms': {'srs': ['EPSG:3857']}, 'wmts': {'kvp': True, 'restful': True}, 'tms': {}},
+        conf = {'services': {'wms': {'srs': ['EPSG:3857']}, 'wmts': {'kvp': True, 'restful': True,
+                                                                              'restful_template': '/{Layer}/{TileMatrixSet}/{Time}/{TileMatrix}/{TileCol}/{TileRow}.{Format}'}, 'tms': {}},
                 'grids': {'g': {'srs': 'EPSG:3857', 'bbox': [0, 0, 640, 640], 'res': [40, 20, 10], 'tile_size': [TS, TS], 'origin': 'nw'}},
                 'sources': {'s': src}, 'caches': {'c': cache},
                 'layers': [{'name': 'l', 'title': 'l', 'sources': ['c'],
@@ -169,6 +170,8 @@ class World(object):
                    '&TILEROW=%d&TILECOL=%d&FORMAT=image/png' % (z, y, x))
             if val is not None:
                 url += '&TIME=' + val
+        elif svc == 'rest':
+            url = '/wmts/l/g/%s/%d/%d/%d.png' % (val, z, x, y)
         else:
             n = (640 // (TS * (40 >> z)))
             url = '/tms/1.0.0/l/EPSG3857/%d/%d/%d.png' % (z, x, n - 1 - y)
@@ -214,7 +217,7 @@ class World(object):
             if m:
                 ev.update(out='ok', dflt=m.group(1), listed=sorted(v.strip() for v in m.group(2).split(',') if v.strip()))
         else:
-            m = re.search(r'<Dimension>\s*<ows:Identifier>time</ows:Identifier>(.*?)</Dimension>', r.text, re.S)
+            m = re.search(r'<Dimension>\s*<ows:Identifier>[Tt]ime</ows:Identifier>(.*?)</Dimension>', r.text, re.S)
             if m:
                 d = re.search(r'<Default>([^<]*)</Default>', m.group(1))
                 ev.update(out='ok', dflt=d.group(1) if d else '-', listed=sorted(re.findall(r'<Value>([^<]*)</Value>', m.group(1))))
@@ -313,10 +316,12 @@ def random_history(rng, kind, nsteps):
             if rng.random() < 0.1:
                 ev.append(w.caps(rng.choice(sorted(CAPS))))
                 continue
-            svc = rng.choice(['wms', 'wms', 'wmts', 'wmts', 'tms'])
+            svc = rng.choice(['wms', 'wms', 'wmts', 'wmts', 'rest', 'tms'])
             t = rng.choice(w.targets)
             if svc == 'tms':
                 d = 'absent'
+            elif svc == 'rest':
+                d = rng.choice(VALUES + ['default', 'other'])
             elif svc == 'wms':
                 d = rng.choice(VALUES + ['absent', 'other'])
             else:
